@@ -153,6 +153,12 @@ func newOperator(expr parser.Expr, storage *engstore.SelectorPool, opts *query.O
 			}
 		}
 
+		// timestamp() of a vector selector is defined on the timestamps of the selected
+		// samples, any other argument is as old as the step.
+		if e.Func.Name == "timestamp" && isVectorSelector(e.Args[0]) {
+			opts = opts.WithSelectTimestamps(true)
+		}
+
 		// Does not have matrix arg so create functionOperator normally.
 		nextOperators := make([]model.VectorOperator, len(e.Args))
 		for i := range e.Args {
@@ -258,6 +264,20 @@ func newOperator(expr parser.Expr, storage *engstore.SelectorPool, opts *query.O
 	default:
 		return nil, errors.Wrapf(parse.ErrNotSupportedExpr, "got: %s", e)
 	}
+}
+
+// isVectorSelector reports whether the expression is a vector selector, possibly in
+// parentheses or pinned by the @ modifier.
+func isVectorSelector(expr parser.Expr) bool {
+	switch e := expr.(type) {
+	case *parser.VectorSelector, *logicalplan.FilteredSelector:
+		return true
+	case *parser.ParenExpr:
+		return isVectorSelector(e.Expr)
+	case *parser.StepInvariantExpr:
+		return isVectorSelector(e.Expr)
+	}
+	return false
 }
 
 func unpackVectorSelector(t *parser.MatrixSelector) (*parser.VectorSelector, []*labels.Matcher, error) {
